@@ -506,7 +506,9 @@ func (c *FuncCtx) atCall(st *State, x *ast.CallExpr) {
 	key := c.eng.calleeKeyOf(x)
 	for _, cl := range c.contract.Clauses {
 		if cl.Kind == "at" && cl.Name == key && cl.Loop == n {
+			c.inAtCall = true
 			v := c.evalSpecAt(st, cl.Expr, x.Pos(), c.ghostEnv())
+			c.inAtCall = false
 			if v.S != tTrue {
 				c.oblige(st, "assert", fmt.Sprintf("assert@%s#%d", key, n), x.Pos(), v.S, cl.Tags, "at call "+key+": "+cl.Text)
 				st.assume(v.S)
